@@ -738,6 +738,17 @@ class Gen(object):
             return self._incomplete(t.elem) or any(d is None for d in t.dims)
         return isinstance(t, (FuncType, Void))
 
+    def cv(self):
+        """qualifiers of a pointee: mostly const, sometimes volatile or both (generator v2)"""
+        if not GEN2:
+            return {"const": True}
+        y = self.r.random()
+        if y < 0.7:
+            return {"const": True}
+        if y < 0.85:
+            return {"const": False, "volatile": True}
+        return {"const": True, "volatile": True}
+
     def pointer_type(self, depth=0):
         r = self.r
         x = r.random()
@@ -745,14 +756,14 @@ class Gen(object):
             t = self.pick_named((Record,))
             if t is not None:
                 if r.random() < 0.3:
-                    return Pointer(Qualified(t, const=True))
+                    return Pointer(Qualified(t, **self.cv()))
                 return Pointer(t)
         if x < 0.45:
             return Pointer(Void())
         if x < 0.52:
-            return Pointer(Qualified(Void(), const=True))
+            return Pointer(Qualified(Void(), **self.cv()))
         if x < 0.62:
-            return Pointer(Qualified(Builtin("char"), const=True))
+            return Pointer(Qualified(Builtin("char"), **self.cv()))
         if x < 0.72 and self.o.func_ptrs and depth < 2:
             return Pointer(self.func_type(depth + 1, small=True))
         if x < 0.80 and depth < 2:
